@@ -124,56 +124,101 @@ fn se_or_ext_string(input: Span) -> PResult<Value> {
 }
 
 fn single_expression(input: Span) -> PResult<Value> {
-    let (input1, a) = logic_expression(input)?;
-    fold_many0(
-        (
-            delimited(
-                multispace0,
-                alt((
-                    value(Operator::And, tag("and")),
-                    value(Operator::Or, tag("or")),
-                )),
-                multispace1,
-            ),
-            single_expression,
-            position,
-        ),
-        move || a.clone(),
-        |a, (op, b, end)| {
-            let pos = input.up_to(&end).to_owned();
-            BinOp::new(a, false, op, false, b, pos).into()
+    // `or` binds loosest, then `and`, then equality, then relational
+    // operators; each level is left-associative.
+    logic_level(
+        |input| {
+            logic_level(
+                equality_expression,
+                and_operator,
+                true,
+                input,
+            )
         },
+        or_operator,
+        true,
+        input,
     )
-    .parse(input1)
 }
 
-fn logic_expression(input: Span) -> PResult<Value> {
-    let (input1, a) = sum_expression(input)?;
-    fold_many0(
-        (
-            delimited(multispace0, relational_operator, multispace0),
-            sum_expression,
-            position,
-        ),
-        move || a.clone(),
-        |a, (op, b, end)| {
-            let pos = input.up_to(&end).to_owned();
-            BinOp::new(a, true, op, true, b, pos).into()
-        },
-    )
-    .parse(input1)
+fn and_operator(input: Span) -> PResult<Operator> {
+    value(Operator::And, tag("and")).parse(input)
 }
-
-fn relational_operator(input: Span) -> PResult<Operator> {
+fn or_operator(input: Span) -> PResult<Operator> {
+    value(Operator::Or, tag("or")).parse(input)
+}
+fn equality_operator(input: Span) -> PResult<Operator> {
     alt((
         value(Operator::Equal, tag("==")),
         value(Operator::NotEqual, tag("!=")),
+    ))
+    .parse(input)
+}
+fn relational_operator(input: Span) -> PResult<Operator> {
+    alt((
         value(Operator::GreaterE, tag(">=")),
         value(Operator::Greater, tag(">")),
         value(Operator::LesserE, tag("<=")),
         value(Operator::Lesser, tag("<")),
     ))
     .parse(input)
+}
+
+fn equality_expression(input: Span) -> PResult<Value> {
+    logic_level(
+        logic_expression,
+        equality_operator,
+        false,
+        input,
+    )
+}
+
+fn logic_expression(input: Span) -> PResult<Value> {
+    logic_level(
+        sum_expression,
+        relational_operator,
+        false,
+        input,
+    )
+}
+
+/// One left-associative level of binary operators.
+///
+/// A `word` operator (`and`, `or`) must be followed by space and is
+/// written without extra spaces, other operators may be written tight.
+fn logic_level<'a, Operand, Op>(
+    operand: Operand,
+    operator: Op,
+    word: bool,
+    input: Span<'a>,
+) -> PResult<'a, Value>
+where
+    Operand: Fn(Span<'a>) -> PResult<'a, Value>,
+    Op: Fn(Span<'a>) -> PResult<'a, Operator>,
+{
+    let (mut rest, mut a) = operand(input)?;
+    loop {
+        let Ok((after_op, op)) =
+            multispace0(rest).and_then(|(i, _)| operator(i))
+        else {
+            return Ok((rest, a));
+        };
+        let spaced: PResult<Span> = if word {
+            multispace1(after_op)
+        } else {
+            multispace0(after_op)
+        };
+        let Ok((after_space, _)) = spaced else {
+            return Ok((rest, a));
+        };
+        let Ok((after_b, b)) = operand(after_space) else {
+            return Ok((rest, a));
+        };
+        let (after_b, end) = position(after_b)?;
+        let pos = input.up_to(&end).to_owned();
+        a = BinOp::new(a, !word, op, !word, b, pos).into();
+        rest = after_b;
+    }
 }
 
 fn sum_expression(input: Span) -> PResult<Value> {
